@@ -289,6 +289,120 @@ func pairJob(raw json.RawMessage) (any, error) {
 	return out, nil
 }
 
+// ---- ordered pairs over unusual but legal pattern spellings ----
+
+// c17ExoticTokens: parameter spellings the parser accepts besides the plain ones (empty rule, braces inside a rule,
+// '-' flag), and literal text in which two patterns share the first bytes of a multi-byte character.
+var c17ExoticTokens = []string{"a", "/", "/\u4e2d", "/\u4e3d", "\u4e2d", "\u4e3d", "{a}", "{b}", "{-a}", "{a:}", "{b:}", "{-b:}", "{a:\\d+}", "{b:\\d+}", "{a:a{}}", "{a:a{x}}", "{b:a{}}", "{a:x}", "{a:[}]}"}
+
+func c17ExoticPool() []string {
+	var ps []string
+	for _, t1 := range c17ExoticTokens {
+		ps = append(ps, "/"+t1)
+		for _, t2 := range c17ExoticTokens {
+			ps = append(ps, "/"+t1+t2)
+		}
+	}
+	return ps
+}
+
+var c17ExoticProbes = []string{"/", "/1", "/a", "/x", "/1a", "/a1", "/1/\u4e2d", "/1/\u4e3d", "/\u4e2d", "/\u4e3d", "/a{}", "/a{x}", "/ax", "/1/", "/a/", "/}", "/1\u4e2d", "/a\u4e2d"}
+
+type exoticItem struct {
+	IC    string   `json:"ic"`
+	First string   `json:"first"`
+	Only  string   `json:"only,omitempty"` // replay: only this second pattern
+	Pool  []string `json:"-"`
+}
+
+func exoticJob(raw json.RawMessage) (any, error) {
+	var it exoticItem
+	if err := json.Unmarshal(raw, &it); err != nil {
+		return nil, err
+	}
+	out := &pairOut{}
+	outc := map[string]struct{}{}
+	cfg := RouterCfg{IC: it.IC}
+	ic := Interceptors(it.IC)
+	if _, bad := Guard(func() { NewRouter(cfg).Handle(it.First, hv.Route("h1"), nil, "GET") }); bad {
+		return out, nil // not registrable on its own: C05 enumerates single patterns
+	}
+	p1, err1 := ref.Parse(it.First, ic)
+	for _, second := range c17ExoticPool() {
+		if it.Only != "" && it.Only != second {
+			continue
+		}
+		r := NewRouter(cfg)
+		r.Handle(it.First, hv.Route("h1"), nil, "GET")
+		before := c17Vector(r, c17ExoticProbes)
+		pv, paniced := Guard(func() { r.Handle(second, hv.Route("h2"), nil, "POST") })
+		out.Pairs++
+		rep := func(clause, class, obs, exp string) {
+			out.Viols = append(out.Viols, explore.Violation{Property: "C17", Clause: clause, Class: class, Config: cfg.String(), History: []string{fmt.Sprintf("Handle(%q,[GET])", it.First)}, Probe: fmt.Sprintf("Handle(%q,[POST])", second), Observed: obs, Expected: exp,
+				Replay: explore.ItemReplay("c17/exotic", exoticItem{IC: it.IC, First: it.First, Only: second})})
+		}
+		// what the model says, where it has an opinion: both spellings are within the documented syntax
+		verdict, why := ref.Either, ""
+		if p2, err2 := ref.Parse(second, ic); err1 == nil && err2 == nil && second != it.First {
+			switch {
+			case textShape(p1) == textShape(p2): // the two texts differ in parameter names and '-' flags only
+				verdict, why = ref.Reject, "ambiguous"
+			case !ref.SameUpToNames(p1, p2):
+				verdict = ref.Accept
+			} // else: same route up to names but spelt differently ({a} / {a:}): the property does not say
+		}
+		outc[fmt.Sprintf("exotic/%v/%v", verdict, paniced)] = struct{}{}
+		if !paniced {
+			if verdict == ref.Reject {
+				rep("C17.rejected", "accepted:"+why, "Handle returned normally", "rejected: identical up to parameter names to the only other route")
+			}
+			continue
+		}
+		if pc := PanicClass(pv); pc != "error" {
+			rep("C17.error-value", "panic-not-error:"+pc, fmt.Sprintf("panic(%T): %v", pv, pv), "panic with an error value")
+		}
+		if verdict == ref.Accept {
+			class := "false-ambiguity"
+			if !strings.Contains(fmt.Sprint(pv), "歧义") {
+				class = "valid-pattern-rejected"
+			}
+			rep("C17.never-ambiguous", class, fmt.Sprintf("panic: %v", pv), "accepted: well-formed and not identical up to parameter names to "+it.First)
+		}
+		after := c17Vector(r, c17ExoticProbes)
+		for i := range before {
+			if before[i] != after[i] {
+				class := "changed-dispatch-by-rejected"
+				if i == 0 {
+					class = "changed-routes-by-rejected"
+				}
+				rep("C17.unchanged", class, "before: "+before[i]+" ; after: "+after[i], "identical: the call was rejected ("+fmt.Sprint(pv)+")")
+				break
+			}
+		}
+	}
+	out.Viols = smallestPerSig(out.Viols)
+	out.Outcomes = keys(outc)
+	return out, nil
+}
+
+// textShape is the pattern text with every parameter's '-' flag and name blanked out.
+func textShape(p *ref.Pattern) string {
+	var b strings.Builder
+	for _, t := range p.Tokens {
+		if t.Kind == ref.Lit {
+			b.WriteString(t.Text)
+			continue
+		}
+		body := t.Text[1 : len(t.Text)-1]
+		rest := ""
+		if k := strings.IndexByte(body, ':'); k >= 0 {
+			rest = body[k:]
+		}
+		b.WriteString("{" + rest + "}")
+	}
+	return b.String()
+}
+
 func c17PairPool(ic string) []string {
 	base := poolD(ic, "thorough")
 	icp := Interceptors(ic)
@@ -315,6 +429,7 @@ func init() {
 	c17Spec.register("c17/expand")
 	c17RuleSpec.register("c17/expand-rules")
 	explore.RegisterJob("c17/pairs", pairJob)
+	explore.RegisterJob("c17/exotic", exoticJob)
 	explore.Register(&explore.Check{ID: "C17", Run: func(rc *explore.RunCtx) {
 		depth := 2
 		if !rc.Quick() {
@@ -325,6 +440,7 @@ func init() {
 			"states: every history over the C04 alphabet up to the depth bound (dedup on the reflective key), with and without WithTrace",
 			"in every state every call of the rejected-call set X (duplicates, method lists with duplicate/unknown/reserved members in any position, malformed patterns sharing a prefix with live routes, rename-only patterns) is performed on a replayed copy; Routes(), all dispatch outcomes incl. Allow headers and OPTIONS * are compared before/after",
 			"a second history family (depth+1, interceptors I1) over routes below regexp and interceptor parameters that split and re-join the literal text after the parameter; in every state renames of live routes must be rejected and same-shape patterns with a different rule (and every other valid call of X with the list [POST GET]) must be accepted",
+			"every ordered pair of patterns built from <=2 of 19 unusual tokens (empty rule {a:}, braces inside a rule, '-' flag, literals sharing the first bytes of a multi-byte character): a rejected second call is an error value and changes nothing; where both spellings are within the documented syntax, a rename-only twin is rejected and anything else accepted",
 			"positive clauses: every ordered pair over the dispatch pool and its renamed / '-'-flipped variants under I0/I1/I2")
 		for _, cfg := range []RouterCfg{{}, {Trace: true}} {
 			explore.BFS(rc, "c17/expand", histCfg{Router: cfg}, depth, true, "C17 "+cfg.String())
@@ -338,6 +454,23 @@ func init() {
 				items = append(items, pairItem{Router: RouterCfg{IC: ic}, First: i, Pool: pool})
 			}
 		}
+		var xitems []exoticItem
+		for _, ic := range []string{"", "I1"} {
+			for _, p := range c17ExoticPool() {
+				xitems = append(xitems, exoticItem{IC: ic, First: p})
+			}
+		}
+		rc.Set("exotic_patterns", len(c17ExoticPool()))
+		explore.ParMap(rc, "c17/exotic", xitems, func(i int, in exoticItem, o pairOut) {
+			rc.Add("exotic_pairs", o.Pairs)
+			rc.Add("transitions", o.Pairs)
+			for _, v := range o.Viols {
+				rc.Report(v)
+			}
+			for _, s := range o.Outcomes {
+				rc.Outcome(s)
+			}
+		})
 		explore.ParMap(rc, "c17/pairs", items, func(i int, in pairItem, o pairOut) {
 			rc.Add("pattern_pairs", o.Pairs)
 			rc.Add("transitions", o.Pairs)
